@@ -391,6 +391,7 @@ func (e *Engine) verifyFunc(ct *FuncContract, prop string) (res *FuncResult) {
 	}
 	fc.entry = st.clone()
 	fc.canary(st, "canary.entry", fc.body.Pos())
+	fc.resetComplete(st)
 	end := fc.execBlock(st, fc.body.List)
 	if end != nil {
 		// falling off the end: implicit return
